@@ -1,6 +1,11 @@
 // C20 - integer, vector and matrix helpers satisfy their defining equations.
 #include <math.h>
+#include <pthread.h>
+#include <signal.h>
+#include <time.h>
 
+#include <atomic>
+#include <memory>
 #include <numeric>
 #include <thread>
 
@@ -134,21 +139,31 @@ static void random_data_sequence(const Case& c, std::string* failure_sig, std::s
     for (size_t k = 0; k < c.n.size(); k++) {
       size_t sz = c.u(k);
       // (a) into the middle of a guarded buffer
+      // "fills the requested bytes" leaves no room for giving up: an exception is a failure of its own kind
+      auto filling = [&](auto&& call, const char* what) {
+        try {
+          call();
+        } catch (const std::exception& e) {
+          VFAIL("random-data-threw", what, "(", sz, ") threw ", exception_name(e), ": ", e.what(), " (call #", k, ")");
+        }
+      };
       std::vector<uint8_t> buf(sz + 32, 0xA5);
-      phosg::random_data(buf.data() + 16, sz);
+      filling([&] { phosg::random_data(buf.data() + 16, sz); }, "random_data(void*)");
       for (size_t g = 0; g < 16; g++) {
         VCHECK(buf[g] == 0xA5 && buf[16 + sz + g] == 0xA5, "random-data-guard", "random_data(", sz, ") wrote outside the requested bytes (call #", k, ")");
       }
       check_filled(buf.data() + 16, sz, 0xA5, "random_data(void*)", k);
       // (b) into an exactly-sized heap block: ASan sees the first byte past the end
-      uint8_t* exact = static_cast<uint8_t*>(malloc(sz ? sz : 1));
+      std::unique_ptr<uint8_t, void (*)(void*)> exact_owner(static_cast<uint8_t*>(malloc(sz ? sz : 1)), free);
+      uint8_t* exact = exact_owner.get();
       memset(exact, 0x5A, sz);
-      phosg::random_data(exact, sz);
+      filling([&] { phosg::random_data(exact, sz); }, "random_data(void*) exact block");
       std::vector<uint8_t> copy(exact, exact + sz);
-      free(exact);
+      exact_owner.reset();
       check_filled(copy.data(), sz, 0x5A, "random_data(void*) exact block", k);
       // (c) the string overload (zero-initialised result)
-      std::string s = phosg::random_data(sz);
+      std::string s;
+      filling([&] { s = phosg::random_data(sz); }, "random_data(size)");
       VCHECK(s.size() == sz, "random-data-size", "random_data(", sz, ").size() == ", s.size());
       check_filled(reinterpret_cast<const uint8_t*>(s.data()), sz, 0x00, "random_data(size)", k);
     }
@@ -177,12 +192,76 @@ static void run_random_data(const Case& c) {
   if (nt || c.n.size() >= 3) ctx().nontrivial_case();
 }
 
+// random_data while signals arrive. "Fills exactly the requested bytes" has no exception for a process that receives
+// signals, and a handler installed with SA_RESTART is the ordinary, supposedly transparent kind of ambient state
+// (every shard of this framework already runs with one: the SIGPROF CPU watchdog). The request sequence runs on a
+// fresh thread (empty pool, as above) while the calling thread sends that thread SIGUSR2 every `period` microseconds;
+// the handler only counts. Oracle = the one of random_data (normal return, guard bytes, no untouched run, size).
+// case: n = [period_us, size0, size1, ...]; the previous disposition of SIGUSR2 is restored after the case.
+static std::atomic<uint64_t> g_sig_count{0};
+static void count_signal(int) { g_sig_count.fetch_add(1, std::memory_order_relaxed); }
+
+struct SigSeq {
+  Case sizes{"random_data"};
+  std::string sig, msg;
+  std::atomic<bool> done{false}, released{false};
+};
+static void sig_sequence_thread(SigSeq* q) {
+  random_data_sequence(q->sizes, &q->sig, &q->msg);
+  q->done.store(true);
+  // stay alive (and signalable) until the sender has stopped
+  while (!q->released.load()) std::this_thread::yield();
+}
+
+static void run_random_data_sig(const Case& c) {
+  if (c.n.size() < 2) throw std::logic_error("short case");
+  uint64_t period = c.u(0);
+  if (period < 5 || period > 100000) throw std::logic_error("period outside domain");
+  SigSeq q;
+  bool large = false;
+  for (size_t k = 1; k < c.n.size(); k++) {
+    if (c.u(k) > (1 << 22)) throw std::logic_error("size outside domain");
+    if (c.u(k) >= 8192) large = true;
+    q.sizes.N(c.u(k));
+  }
+  struct sigaction sa, old;
+  memset(&sa, 0, sizeof(sa));
+  sa.sa_handler = count_signal;
+  sa.sa_flags = SA_RESTART;
+  sigemptyset(&sa.sa_mask);
+  if (sigaction(SIGUSR2, &sa, &old) != 0) throw std::logic_error("sigaction failed");
+  g_sig_count.store(0);
+  {
+    std::thread t(sig_sequence_thread, &q);
+    pthread_t h = t.native_handle();
+    struct timespec ts;
+    ts.tv_sec = period / 1000000;
+    ts.tv_nsec = (period % 1000000) * 1000;
+    while (!q.done.load()) {
+      pthread_kill(h, SIGUSR2);
+      nanosleep(&ts, nullptr);
+    }
+    q.released.store(true);
+    t.join();
+  }
+  sigaction(SIGUSR2, &old, nullptr);
+  uint64_t delivered = g_sig_count.load();
+  if (!q.sig.empty()) VFAIL(q.sig, q.msg, " [while SIGUSR2 (SA_RESTART handler) was delivered every ", period, " us; ", delivered, " delivered]");
+  ctx().cls(delivered == 0 ? "random_data_sig:no-signal-arrived" : delivered < 10 ? "random_data_sig:1-9-signals" : "random_data_sig:>=10-signals");
+  if (large && delivered > 0) ctx().nontrivial_case();
+}
+
 // ---------------------------------------------------------------- vectors
 
 typedef phosg::Vector2<int64_t> V2;
 typedef phosg::Vector3<int64_t> V3;
 typedef phosg::Vector4<int64_t> V4;
 typedef phosg::Matrix4<int64_t> M4;
+
+// component i as an lvalue (at(i) returns a copy)
+static int64_t& comp(V2& v, size_t i) { return i == 0 ? v.x : v.y; }
+static int64_t& comp(V3& v, size_t i) { return i == 0 ? v.x : i == 1 ? v.y : v.z; }
+static int64_t& comp(V4& v, size_t i) { return i == 0 ? v.x : i == 1 ? v.y : i == 2 ? v.z : v.w; }
 
 template <typename V, size_t N>
 static void vec_laws(const int64_t* a, const int64_t* b, int64_t k, const V& va, const V& vb, const char* tn) {
@@ -227,6 +306,47 @@ static void vec_laws(const int64_t* a, const int64_t* b, int64_t k, const V& va,
       t %= k;
       eq(t, [&](size_t i) { return a[i] % k; }, "mod-scalar-assign");
     }
+  }
+  // The same definitions when the right-hand operand is (a reference to) part of the left-hand object:
+  // `v op= v.<component j>` must use the value the component had when the operator was called, `v op= v` likewise.
+  for (size_t j = 0; j < N; j++) {
+    const int64_t s = a[j]; // the operand's value, copied before the operation
+    V t = va;
+    V& r = (t += comp(t, j));
+    VCHECK(&r == &t, cat(tn, "-compound-ref"), "+= (scalar) does not return *this");
+    eq(t, [&](size_t i) { return a[i] + s; }, "add-scalar-assign-aliased");
+    t = va;
+    t -= comp(t, j);
+    eq(t, [&](size_t i) { return a[i] - s; }, "sub-scalar-assign-aliased");
+    t = va;
+    t *= comp(t, j);
+    eq(t, [&](size_t i) { return a[i] * s; }, "mul-scalar-assign-aliased");
+    if (s != 0) {
+      t = va;
+      t /= comp(t, j);
+      eq(t, [&](size_t i) { return a[i] / s; }, "div-scalar-assign-aliased");
+      t = va;
+      t %= comp(t, j);
+      eq(t, [&](size_t i) { return a[i] % s; }, "mod-scalar-assign-aliased");
+    }
+    // non-compound forms with the same operand: result componentwise, left operand unchanged
+    t = va;
+    eq(t + comp(t, j), [&](size_t i) { return a[i] + s; }, "add-scalar-aliased");
+    eq(t - comp(t, j), [&](size_t i) { return a[i] - s; }, "sub-scalar-aliased");
+    eq(t * comp(t, j), [&](size_t i) { return a[i] * s; }, "mul-scalar-aliased");
+    if (s != 0) {
+      eq(t / comp(t, j), [&](size_t i) { return a[i] / s; }, "div-scalar-aliased");
+      eq(t % comp(t, j), [&](size_t i) { return a[i] % s; }, "mod-scalar-aliased");
+    }
+    eq(t, [&](size_t i) { return a[i]; }, "binary-op-modified-operand");
+  }
+  {
+    V t = va;
+    t += t;
+    eq(t, [&](size_t i) { return a[i] + a[i]; }, "add-assign-self");
+    t = va;
+    t -= t;
+    eq(t, [&](size_t) { return int64_t(0); }, "sub-assign-self");
   }
   int64_t dot = 0, n1 = 0, n2 = 0;
   bool all_zero = true, same = true;
@@ -366,10 +486,62 @@ static void run_m4(const Case& c) {
       VCHECK(el(D, r, k) == ra[r][k] - rb[r][k], "m4-sub", "entry");
       VCHECK(el(P, r, k) == ra[r][k] * s, "m4-scale", "entry");
     }
+  // the other entrywise scalar operators, their compound forms, and the compound forms with an operand that is an
+  // entry of the matrix itself (value taken when the operator is called)
+  auto entries = [&](const M4& R, auto f, const char* op) {
+    for (int r = 0; r < 4; r++)
+      for (int k = 0; k < 4; k++) {
+        int64_t e = f(ra[r][k]);
+        VCHECK(el(R, r, k) == e, cat("m4-", op), "entry [", r, "][", k, "] is ", el(R, r, k), " expected ", e);
+      }
+  };
+  auto scalar_ops = [&](int64_t sv, auto operand, const char* suffix) {
+    // operand(M) yields the right-hand operand for an operation on M (a plain value, or a reference into M)
+    M4 W = A;
+    M4& ret = (W += operand(W));
+    VCHECK(&ret == &W, "m4-compound-ref", "+= (scalar) does not return *this");
+    entries(W, [&](int64_t x) { return x + sv; }, cat("add-scalar-assign", suffix).c_str());
+    W = A;
+    W -= operand(W);
+    entries(W, [&](int64_t x) { return x - sv; }, cat("sub-scalar-assign", suffix).c_str());
+    W = A;
+    W *= operand(W);
+    entries(W, [&](int64_t x) { return x * sv; }, cat("scale-assign", suffix).c_str());
+    W = A;
+    entries(W + operand(W), [&](int64_t x) { return x + sv; }, cat("add-scalar", suffix).c_str());
+    entries(W - operand(W), [&](int64_t x) { return x - sv; }, cat("sub-scalar", suffix).c_str());
+    entries(W * operand(W), [&](int64_t x) { return x * sv; }, cat("scale", suffix).c_str());
+    if (sv != 0) {
+      entries(W / operand(W), [&](int64_t x) { return x / sv; }, cat("div-scalar", suffix).c_str());
+      entries(W % operand(W), [&](int64_t x) { return x % sv; }, cat("mod-scalar", suffix).c_str());
+      VCHECK(W == A, "m4-binary-op-modified-operand", "a non-compound scalar operator changed its left operand");
+      W /= operand(W);
+      entries(W, [&](int64_t x) { return x / sv; }, cat("div-scalar-assign", suffix).c_str());
+      W = A;
+      W %= operand(W);
+      entries(W, [&](int64_t x) { return x % sv; }, cat("mod-scalar-assign", suffix).c_str());
+    }
+  };
+  scalar_ops(s, [&](M4&) -> int64_t { return s; }, "");
+  for (int z = 0; z < 16; z++) {
+    int64_t sv = A.v[z];
+    scalar_ops(sv, [z](M4& W) -> int64_t& { return W.v[z]; }, "-aliased");
+  }
+  {
+    M4 W = A;
+    W += W;
+    entries(W, [&](int64_t x) { return x + x; }, "add-assign-self");
+    W = A;
+    W -= W;
+    entries(W, [&](int64_t) { return int64_t(0); }, "sub-assign-self");
+  }
   if (!(A == B) && !(A == I) && !(B == I)) ctx().nontrivial_case();
 }
 
-// case: n = [16 doubles as bit patterns], strictly row- and column-diagonally dominant
+// case: n = [16 doubles as bit patterns], strictly row- and column-diagonally dominant.
+// Diagonal dominance, the conditioning of M and the residual M*inverse(M) - I are all invariant under M -> cM, so the
+// same absolute tolerance on the (dimensionless) product applies at every global scale of M; the generator keeps the
+// scale within 2^-900..2^900 so that neither M nor its inverse leaves the normal double range.
 static void run_m4inv(const Case& c) {
   phosg::Matrix4<double> M;
   double a[4][4];
@@ -387,7 +559,13 @@ static void run_m4inv(const Case& c) {
       }
     if (!(fabs(a[r][r]) > row && fabs(a[r][r]) > col)) throw std::logic_error("matrix not diagonally dominant");
   }
-  phosg::Matrix4<double> Inv = M.inverse();
+  phosg::Matrix4<double> Inv;
+  try {
+    Inv = M.inverse();
+  } catch (const std::exception& e) {
+    // a strictly diagonally dominant matrix is invertible (Levy-Desplanques): refusing it is a failure of the law
+    VFAIL("m4-inverse-threw", "inverse() of a strictly diagonally dominant matrix threw ", exception_name(e), ": ", e.what(), " (diagonal ", a[0][0], ", ", a[1][1], ", ", a[2][2], ", ", a[3][3], ")");
+  }
   phosg::Matrix4<double> P = M * Inv, Q = Inv * M;
   for (int r = 0; r < 4; r++)
     for (int k = 0; k < 4; k++) {
@@ -398,6 +576,13 @@ static void run_m4inv(const Case& c) {
   phosg::Matrix4<double> M2 = M;
   M2.invert();
   VCHECK(M2 == Inv, "m4-invert-inplace", "invert() differs from inverse()");
+  {
+    double dmin = fabs(a[0][0]);
+    for (int r = 1; r < 4; r++) dmin = std::min(dmin, fabs(a[r][r]));
+    int ex = 0;
+    frexp(dmin, &ex);
+    ctx().cls(ex < -300 ? "m4inv:diagonal<2^-300" : ex < -40 ? "m4inv:diagonal<2^-40" : ex <= 40 ? "m4inv:diagonal~1" : ex <= 300 ? "m4inv:diagonal>2^40" : "m4inv:diagonal>2^300");
+  }
   ctx().nontrivial_case();
 }
 
@@ -464,16 +649,32 @@ static Case gen_random_int() {
   hi = static_cast<int64_t>(static_cast<uint64_t>(lo) + span);
   return Case("random_int").I(lo).I(hi).N(200);
 }
+static uint64_t gen_data_size() {
+  switch (vg::below(4)) {
+    case 0: return vg::below(40);
+    case 1: return 4090 + vg::below(12);
+    case 2: return 8186 + vg::below(12);
+    default: return vg::below(9001);
+  }
+}
+// many pools long: 2^k-1, 2^k, 2^k+1 for 2^12..2^18
+static uint64_t gen_big_size(uint64_t max_log) {
+  return (1ULL << (12 + vg::below(max_log - 11))) - 1 + vg::below(3);
+}
 static Case gen_random_data() {
   Case c("random_data");
   uint64_t calls = 1 + vg::below(6);
+  for (uint64_t k = 0; k < calls; k++) c.N(vg::chance(1, 24) ? gen_big_size(18) : gen_data_size());
+  return c;
+}
+static Case gen_random_data_sig() {
+  Case c("random_data_sig");
+  c.N(vg::pick<uint64_t>({10, 20, 50, 100, 200, 500}));
+  uint64_t calls = 2 + vg::below(4);
+  uint64_t big_at = vg::below(calls); // at least one request of many pages
   for (uint64_t k = 0; k < calls; k++) {
-    switch (vg::below(4)) {
-      case 0: c.N(vg::below(40)); break;
-      case 1: c.N(4090 + vg::below(12)); break;
-      case 2: c.N(8186 + vg::below(12)); break;
-      default: c.N(vg::below(9001)); break;
-    }
+    if (k == big_at) c.N(vg::coin() ? gen_big_size(20) : 8192 + vg::below((1 << 20) - 8192 + 1));
+    else c.N(vg::chance(1, 4) ? gen_big_size(18) : gen_data_size());
   }
   return c;
 }
@@ -515,9 +716,18 @@ static Case gen_m4inv() {
     double d = std::max(row, col) + 0.01 + static_cast<double>(vg::below(5000)) / 100.0;
     a[r][r] = vg::coin() ? d : -d;
   }
+  // global scale: dominance is scale invariant. Powers of two scale exactly; decimal factors round every entry by
+  // at most half an ulp, far inside the dominance margin (>= 0.01 on sums below 100, i.e. 1e-4 relative).
+  double scale = 1.0;
+  switch (vg::below(4)) {
+    case 0: break;
+    case 1: scale = ldexp(1.0, static_cast<int>(vg::range(-900, 900))); break;
+    case 2: scale = pow(10.0, static_cast<double>(vg::range(-270, 270))); break;
+    default: scale = ldexp(1.0 + static_cast<double>(vg::below(1000)) / 1000.0, static_cast<int>(vg::range(-80, 80))); break;
+  }
   Case c("m4inv");
   for (int r = 0; r < 4; r++)
-    for (int k = 0; k < 4; k++) c.D(a[r][k]);
+    for (int k = 0; k < 4; k++) c.D(a[r][k] * scale);
   return c;
 }
 
@@ -654,6 +864,7 @@ int main(int argc, char** argv) {
   checks.push_back({"log2i", run_log2i, gen_log2i, 100000, 500000, 100, enum_log2i});
   checks.push_back({"random_int", run_random_int, gen_random_int, 12000, 60000, 100, nullptr});
   checks.push_back({"random_data", run_random_data, gen_random_data, 4000, 30000, 100, nullptr});
+  checks.push_back({"random_data_sig", run_random_data_sig, gen_random_data_sig, 1200, 8000, 100, nullptr});
   checks.push_back({"v2", run_v2, nullptr, 0, 0, 100, enum_vectors});
   checks.push_back({"v3", run_v3, nullptr, 0, 0, 100, enum_v3});
   checks.push_back({"v4", run_v4, gen_v4, 100000, 400000, 100, nullptr});
